@@ -7,6 +7,12 @@
 #ifndef K
 #define K 3
 #endif
+#ifndef PERM
+#define PERM 0
+#endif
+#ifndef HEAD
+#define HEAD 2047
+#endif
 #define qsort v_qsort
 static void v_qsort(void *base, size_t n, size_t sz, int (*cmp)(const void *, const void *));
 #include "Source/Lib/Encoder/Codec/EbPacketizationProcess.c"
@@ -20,15 +26,18 @@ static void v_qsort(void *base, size_t n, size_t sz, int (*cmp)(const void *, co
 void svt_print_alloc_fail(const char *f, int l) { (void)f; (void)l; }
 
 /* ---------------- scenario ---------------- */
-static PictureControlSet pcs[K];
-static PictureParentControlSet ppcs[K];
+static PictureControlSet *pcs_a[K];        /* malloc'ed one by one (typed objects, no 250 kB zero-initialisation); fields the kernel reads are set below */
+static PictureParentControlSet *ppcs_a[K];
+#define pcs_(i) (*pcs_a[i])
+#define ppcs_(i) (*ppcs_a[i])
 static Av1Common cmn[K];
 static EbBufferHeaderType inbuf[K];
 static EntropyCodingResults ecr[K];
 static EbObjectWrapper w_ecr[K], w_pcs[K], w_ppcs[K], w_scs, w_out[K + 1], w_rc[K], w_pm[K];
 static EbBufferHeaderType outbuf[K + 1];
 static RateControlTasks rct[K]; static PictureDemuxResults pmr[K];
-static SequenceControlSet scs; static EncodeContext ectx;
+static SequenceControlSet *scs_p; static EncodeContext ectx;
+#define scs (*scs_p)
 static PacketizationReorderEntry entries[K + 1]; static Bitstream ebs[K + 1], pbs[K]; static OutputBitstreamUnit eobu[K + 1], pobu[K];
 static uint8_t ebuf[K + 1][24], pbuf[K][24];
 static PacketizationContext pctx; static EbThreadContext tctx;
@@ -53,7 +62,7 @@ void svt_metadata_array_free(void *arr) { (void)arr; }
 size_t svt_metadata_size(SvtMetadataArrayT *m, const EbAv1MetadataType t) { (void)m; (void)t; return 0; }
 static int flen[K];
 EbErrorType write_frame_header_av1(Bitstream *b, SequenceControlSet *s, PictureControlSet *p, uint8_t show_existing) {
-    (void)s; int idx = (int)(p - pcs);
+    (void)s; int idx = 0; for (int t = 0; t < K; t++) if (p == pcs_a[t]) idx = t;
     if (show_existing) { put(b, (uint8_t)(0x40 | idx)); return EB_ErrorNone; }
     put(b, (uint8_t)(0x80 | (idx << 1) | (p->parent_pcs_ptr->frm_hdr.show_frame ? 1 : 0)));
     for (int i = 1; i < flen[idx]; i++) put(b, 0xEE);
@@ -100,9 +109,9 @@ EbErrorType svt_post_full_object(EbObjectWrapper *w) {
         if (m & 0x80) {
             int idx = (m >> 1) & 0x1f; int sh = m & 1;
             V_ASSERT(idx < K, "frame marker intact"); if (idx >= K) break;
-            int d = (int)(ppcs[idx].decode_order - head_dec);
+            int d = (int)(ppcs_(idx).decode_order - head_dec);
             V_ASSERT(d == last_dec + 1, "frames leave in decode order, none skipped or repeated"); last_dec = d;
-            if (ppcs[idx].frm_hdr.frame_type == KEY_FRAME) { key_in_tu = 1; if (!sps) saw_sps_before_key = 0; }
+            if (ppcs_(idx).frm_hdr.frame_type == KEY_FRAME) { key_in_tu = 1; if (!sps) saw_sps_before_key = 0; }
             nframes++; nshown += sh;
             if (sh) V_ASSERT(pos + (uint32_t)flen[idx] == o->n_filled_len, "the shown frame is the last frame of the temporal unit");
             pos += (uint32_t)flen[idx];
@@ -128,9 +137,19 @@ EbErrorType svt_post_full_object(EbObjectWrapper *w) {
 void harness(void) {
     /* window of K pictures in decode order head_dec .. head_dec+K-1; the reorder queue head sits at head_dec % depth,
        chosen so that the 2047 -> 0 wrap is inside the window for some choices */
-    uint32_t hsel = (uint32_t)vin_range(0, 3);
-    static const uint32_t heads[4] = {0, 2046, 2047, 4095};
-    head_dec = heads[hsel];
+    for (int i = 0; i < K; i++) {
+        pcs_a[i] = (PictureControlSet *)malloc(sizeof(PictureControlSet)); ppcs_a[i] = (PictureParentControlSet *)malloc(sizeof(PictureParentControlSet));
+        V_ASSUME(pcs_a[i] && ppcs_a[i]);
+        ppcs_(i).reference_picture_wrapper_ptr = NULL; ppcs_(i).data_ll_head_ptr = NULL; ppcs_(i).app_out_data_ll_head_ptr = NULL;
+        ppcs_(i).frame_end_cdf_update_mode = 0; ppcs_(i).picture_qp = 20; ppcs_(i).start_time_seconds = 0; ppcs_(i).start_time_u_seconds = 0;
+        ppcs_(i).luma_ssim = ppcs_(i).cb_ssim = ppcs_(i).cr_ssim = 0; ppcs_(i).output_stream_wrapper_ptr = NULL; ppcs_(i).total_num_bits = 0;
+        memset(&ppcs_(i).av1_ref_signal, 0, sizeof(Av1RpsNode)); ppcs_(i).frm_hdr.show_existing_frame = 0;
+    }
+    scs_p = (SequenceControlSet *)malloc(sizeof(SequenceControlSet));
+    V_ASSUME(scs_p != NULL);
+    scs.static_config.rate_control_mode = 0; scs.static_config.speed_control_flag = 0; scs.lap_enabled = 0; scs.enable_dec_order = 0;
+    scs.static_config.rc_twopass_stats_in.sz = 0; scs.static_config.rc_twopass_stats_in.buf = NULL; scs.static_config.rc_firstpass_stats_out = 0;
+    head_dec = HEAD;    /* concrete per query (a symbolic index into the 2048-entry queue makes every queue access a 2048-way case split) */
     ectx.packetization_reorder_queue_head_index = head_dec % PACKETIZATION_REORDER_QUEUE_MAX_DEPTH;
     static PacketizationReorderEntry *qarr[PACKETIZATION_REORDER_QUEUE_MAX_DEPTH];
     ectx.packetization_reorder_queue = qarr;
@@ -158,7 +177,7 @@ void harness(void) {
         if (sh && hid_outstanding) hse = vinbool();
         if (i == K - 1 && hid_outstanding) hse = 1;              /* window ends with everything displayed */
         if (i == K - 1 && !sh) { shown[i] = sh = 1; }
-        ppcs[i].has_show_existing = (EbBool)hse;
+        ppcs_(i).has_show_existing = (EbBool)hse;
         if (!sh) { hid_outstanding = 1; hidden_idx = i; }
         else {
             pts_of[i] = next_pts++; exp_pts[nd] = pts_of[i]; exp_showex[nd] = 0; exp_dec[nd] = i; nd++;
@@ -168,31 +187,35 @@ void harness(void) {
     V_ASSUME(!hid_outstanding);
     n_displayed_expected = nd;
     for (int i = 0; i < K; i++) {
-        w_ecr[i].object_ptr = &ecr[i]; ecr[i].pcs_wrapper_ptr = &w_pcs[i]; w_pcs[i].object_ptr = &pcs[i];
-        pcs[i].parent_pcs_ptr = &ppcs[i]; pcs[i].scs_wrapper_ptr = &w_scs; pcs[i].picture_parent_control_set_wrapper_ptr = &w_ppcs[i];
-        pcs[i].bitstream_ptr = &pbs[i]; pbs[i].output_bitstream_ptr = &pobu[i]; pobu[i].buffer_begin_av1 = pobu[i].buffer_av1 = pbuf[i]; pobu[i].size = 24;
-        ppcs[i].av1_cm = &cmn[i]; cmn[i].tiles_info.tile_rows = 1; cmn[i].tiles_info.tile_cols = 1;
-        ppcs[i].decode_order = head_dec + (uint32_t)i;
-        pcs[i].picture_number = (uint64_t)pts_of[i]; ppcs[i].picture_number = pcs[i].picture_number;
-        ppcs[i].input_ptr = &inbuf[i]; inbuf[i].pts = pts_of[i]; inbuf[i].p_app_private = (void *)(uintptr_t)(0x1000 + pts_of[i]);
-        ppcs[i].frm_hdr.show_frame = (uint8_t)shown[i];
-        ppcs[i].idr_flag = (EbBool)vinbool();
-        int islice = ppcs[i].idr_flag ? 1 : vinbool();
-        pcs[i].slice_type = islice ? I_SLICE : (vinbool() ? B_SLICE : P_SLICE);
-        ppcs[i].frm_hdr.frame_type = ppcs[i].idr_flag ? KEY_FRAME : (islice ? INTRA_ONLY_FRAME : INTER_FRAME);
-        if (ppcs[i].idr_flag) V_ASSUME(shown[i]);                 /* key frames are shown (C19) */
-        ppcs[i].is_used_as_reference_flag = ppcs[i].idr_flag ? EB_TRUE : (EbBool)vinbool();
-        ppcs[i].is_alt_ref = 0;
+        w_ecr[i].object_ptr = &ecr[i]; ecr[i].pcs_wrapper_ptr = &w_pcs[i]; w_pcs[i].object_ptr = &pcs_(i);
+        pcs_(i).parent_pcs_ptr = &ppcs_(i); pcs_(i).scs_wrapper_ptr = &w_scs; pcs_(i).picture_parent_control_set_wrapper_ptr = &w_ppcs[i];
+        pcs_(i).bitstream_ptr = &pbs[i]; pbs[i].output_bitstream_ptr = &pobu[i]; pobu[i].buffer_begin_av1 = pobu[i].buffer_av1 = pbuf[i]; pobu[i].size = 24;
+        ppcs_(i).av1_cm = &cmn[i]; cmn[i].tiles_info.tile_rows = 1; cmn[i].tiles_info.tile_cols = 1;
+        ppcs_(i).decode_order = head_dec + (uint32_t)i;
+        pcs_(i).picture_number = (uint64_t)pts_of[i]; ppcs_(i).picture_number = pcs_(i).picture_number;
+        ppcs_(i).input_ptr = &inbuf[i]; inbuf[i].pts = pts_of[i]; inbuf[i].p_app_private = (void *)(uintptr_t)(0x1000 + pts_of[i]);
+        ppcs_(i).frm_hdr.show_frame = (uint8_t)shown[i];
+        ppcs_(i).idr_flag = (EbBool)vinbool();
+        int islice = ppcs_(i).idr_flag ? 1 : vinbool();
+        pcs_(i).slice_type = islice ? I_SLICE : (vinbool() ? B_SLICE : P_SLICE);
+        ppcs_(i).frm_hdr.frame_type = ppcs_(i).idr_flag ? KEY_FRAME : (islice ? INTRA_ONLY_FRAME : INTER_FRAME);
+        if (ppcs_(i).idr_flag) V_ASSUME(shown[i]);                 /* key frames are shown (C19) */
+        ppcs_(i).is_used_as_reference_flag = ppcs_(i).idr_flag ? EB_TRUE : (EbBool)vinbool();
+        ppcs_(i).is_alt_ref = 0;
         flen[i] = (int)vin_range(1, 3);
-        ppcs[i].luma_sse = vin32(); ppcs[i].cb_sse = vin32(); ppcs[i].cr_sse = vin32();
+        ppcs_(i).luma_sse = vin32(); ppcs_(i).cb_sse = vin32(); ppcs_(i).cr_sse = vin32();
     }
-    for (int j = 0; j < nd; j++) { exp_key[j] = !exp_showex[j] && ppcs[exp_dec[j]].frm_hdr.frame_type == KEY_FRAME; }
+    for (int j = 0; j < nd; j++) { exp_key[j] = !exp_showex[j] && ppcs_(exp_dec[j]).frm_hdr.frame_type == KEY_FRAME; }
     /* EOS: optionally the last picture in decode order terminates the stream */
     ectx.terminating_sequence_flag_received = (EbBool)vinbool();
     ectx.terminating_picture_number = head_dec + K - 1;
-    /* arbitrary arrival order (a permutation of 0..K-1) */
-    int seen[K]; for (int i = 0; i < K; i++) seen[i] = 0;
-    for (int i = 0; i < K; i++) { arrival[i] = (int)vin_range(0, K - 1); V_ASSUME(!seen[arrival[i]]); seen[arrival[i]] = 1; }
+    /* arrival order: the PERM-th permutation of 0..K-1 (one query per permutation: keeping the picture
+       pointers concrete per kernel iteration is what makes the query tractable; everything else stays symbolic) */
+    {
+        int avail[K]; for (int i = 0; i < K; i++) avail[i] = i;
+        int code = PERM, n = K;
+        for (int i = 0; i < K; i++) { int pick = code % n; code /= n; arrival[i] = avail[pick]; for (int t = pick; t + 1 < n; t++) avail[t] = avail[t + 1]; n--; }
+    }
 
     packetization_kernel(&tctx);
 
